@@ -65,6 +65,7 @@ type Exec struct {
 	overflowProps []string
 	sqlProps      []string
 	globalObj     map[*ssa.Global]int
+	configVal     *VPtr
 	txProps       []string
 	assertProps   []string
 }
@@ -81,6 +82,10 @@ func NewExec(prog *Program, fn *ssa.Function) *Exec {
 		notes: map[string]bool{}, structCodecs: map[string]structCodec{}, globalObj: map[*ssa.Global]int{}}
 	if prog.spec != nil {
 		x.sym.preset = prog.spec.lits
+		x.sym.external = map[string]bool{}
+		for n := range prog.spec.sigs {
+			x.sym.external[n] = true
+		}
 	}
 	return x
 }
@@ -950,6 +955,8 @@ func (x *Exec) overflowNote(st *State, r Term, t types.Type, pos token.Pos, op s
 	if lo, hi, ok := intRange(b); ok && x.overflowProps != nil {
 		goal := App(SBool, "and", App(SBool, "<=", Term{lo, SInt}, r), App(SBool, "<=", r, Term{hi, SInt}))
 		x.oblige(st, "overflow", "machine arithmetic "+op+" does not wrap", goal, pos, x.overflowProps)
+		// the rest of the path is verified for the non-wrapping case; the wrapping case is this obligation
+		st.assume(goal)
 	}
 }
 
